@@ -21,11 +21,7 @@ from tools.gen import bytecode as gen_bytecode
 from tools.gen.csrc import ExtractError
 from harness.C02 import gen, oracle
 
-THEOREMS = []
-try:
-    from harness.C02.lean_parts import THEOREMS, lean_stage   # added once the Lean side exists
-except Exception:                                             # pragma: no cover
-    lean_stage = None
+from harness.C02.lean_parts import THEOREMS, lean_stage, tv_stage
 
 KNOWN_WHAT = {
     "far-upvalue-index-truncated": "closure captures a local living in a register > 255: LOAD_UPVALUE/SET_UPVALUE index is truncated to 8 bits",
@@ -61,8 +57,7 @@ def run(ctx):
     janet = v["janet"]
     lean_cov = {}
     # ---------------------------------------------------------------- (B,C,D)
-    if lean_stage is not None:
-        lean_cov = lean_stage(ctx, broken, quick)
+    lean_cov = lean_stage(ctx, broken, quick)
 
     # ---------------------------------------------------------------- (E) targeted corpus first
     corpus = json.load(open(os.path.join(VERIF, "corpus/C02/targeted.json")))
@@ -108,6 +103,14 @@ def run(ctx):
     got, problems = oracle.run_impl_parallel(janet, cases, jobs=jobs)
     ctx.say("implementation ran %d cases" % len(got))
     died = {p["case"]: p for p in problems}
+    # ---------------------------------------------------------------- (D2) translation validation through the Lean VM
+    tv_cov, tv_dis = tv_stage(ctx, broken, todo, got)
+    lean_cov.update(tv_cov)
+    ctx.say("translation validation: %s" % tv_cov)
+    for dd in tv_dis[:5]:
+        # the Lean VM and the real VM ran the SAME bytecode: a difference is a VM-model / VM discrepancy, reported with the program
+        ctx.violation("tv:" + hashlib.sha256(dd["source"].encode()).hexdigest()[:12], dict(dd, kind="lean-vm-vs-real-vm"),
+                      what="Lean VM and real VM disagree on the bytecode the real compiler produced for %s" % dd["case"])
     byprog = {}
     for it in todo:
         byprog.setdefault(it["prog"], []).append(it)
